@@ -220,8 +220,10 @@ def report(prop,tier,seed,repo,meta,results,extras,known,lock,t0,verbose):
       evaluations=max(n_obl,1),distinct_nontrivial=max(n_obl-per_solver.get('trivial',0),0),
       rule="one evaluation = one named proof obligation (all its per-path SMT queries); non-trivial = needed a solver call (not closed by simplification)"),
     assumptions=meta.get('assumptions',[])+GLOBAL_ASSUMPTIONS)
-  os.makedirs(os.path.join(VERIF,'evidence'),exist_ok=True)
-  json.dump(ev,open(os.path.join(VERIF,'evidence',f'{prop}.json'),'w'),indent=1,default=str)
+  # evidence is about /repo itself; a run against another tree (REPO=...: seeded changes, mutation self-test) writes under out/
+  evdir=os.path.join(VERIF,'evidence') if os.path.realpath(repo)=='/repo' else os.path.join(VERIF,'out','evidence-other-tree')
+  os.makedirs(evdir,exist_ok=True)
+  json.dump(ev,open(os.path.join(evdir,f'{prop}.json'),'w'),indent=1,default=str)
   print(f"{prop}: {n_dis}/{n_obl} obligations discharged over {len(functions)} functions, {evals} native contract evaluations, "
         f"{len(violations)} violations, {len(known_hits)} known findings, {len(undecided)} undecided, {wall:.1f}s")
   if violations: return 1
